@@ -6,6 +6,7 @@ package main
 // send = the node is stalled forever inside Executor.SendMessage (a message sender that never returns)
 // slow = the node is not stalled but takes 100 ms per event: far too slow to drain its backlog within the timeout
 // shutblocks=1: the stalled node's Shutdown hook cannot return while its processing call is wedged (it needs the same lock)
+// async=1: the inner node is an asynchronous node that answers half of its events with an error (nothing stalls)
 // flush=stuck: the message sender's Kafka producer still has an undeliverable record queued at shutdown (Flush keeps
 // reporting 1 outstanding); sd=1: Executor.Shutdown() is called early and the channel it returns is ignored
 
@@ -57,6 +58,7 @@ func genTimeout(r *rng, n int, tier string, emit func(string)) {
 	emit("to 1 stall=leaf:forever n=3 fill=0 pw=1 hw=1 roots=2")
 	emit("to 2 stall=inner:forever n=3 fill=0 pw=1 hw=1 file=1")
 	emit("to 4 stall=none:forever n=8 fill=0 pw=2 hw=1 file=1 roots=2")
+	emit("to 4 stall=none:forever n=16 fill=0 pw=2 hw=1 async=1")
 	if tier == "thorough" {
 		for i := 0; i < n; i++ {
 			role := r.pickS("root", "inner", "leaf", "handler")
@@ -134,6 +136,11 @@ func execTimeout(input string) string {
 			sp.shutBlocks = opt["shutblocks"] == "1"
 		}
 	}
+	innerName := "vsync"
+	if opt["async"] == "1" {
+		inner.kind, innerName = "async", "vasync"
+		inner.wPass, inner.wError = 50, 50
+	}
 	specs := []*nodeSpec{root, inner, leaf, handler}
 	src := &sourceScript{stopAt: -1}
 	for i := 0; i < n; i++ {
@@ -144,7 +151,7 @@ func execTimeout(input string) string {
 		Source: &node.SourceConfig{Name: "vsource", ID: fmt.Sprintf("r%d_src", run)},
 		Nodes: []*node.Config{{ID: root.id, Name: "vsync", Workers: pw, BufferSize: 2,
 			ErrorHandler: &node.Config{ID: handler.id, Name: "vhsync", Workers: hw, BufferSize: 8},
-			Children: []*node.Config{{ID: inner.id, Name: "vsync", Workers: 1, BufferSize: 2,
+			Children: []*node.Config{{ID: inner.id, Name: innerName, Workers: 1, BufferSize: 2,
 				Children: []*node.Config{{ID: leaf.id, Name: "vsync", Workers: 1, BufferSize: 2}}}}}}}
 	// roots=K: K-1 further, perfectly healthy trees (a root with one child) beside the one that may stall
 	extraRoots, _ := strconv.Atoi(opt["roots"])
